@@ -4,6 +4,9 @@ import (
 	"encoding/json"
 	"fmt"
 	"math/big"
+	"os"
+	"path/filepath"
+	"regexp"
 	"strings"
 
 	"github.com/atombender/go-jsonschema/pkg/mathutils"
@@ -403,6 +406,37 @@ func init() {
 					pcs = append(pcs, baseCase("c05-format-annotation", schema, docs, ty, string(pos), "format="+format))
 				}
 			}
+		}
+		// the same schema given as a FILE and on STANDARD INPUT, its bounds spelled in every way JSON allows for one number
+		// (100, 100.0, 1e2, 1E2, 1e+2, 10000e-2, big and tiny exponents): the tool emits the same checks
+		if bin := buildCLI(c); bin != "" {
+			tmpc, _ := os.MkdirTemp("", "gjsc05")
+			boundRe := regexp.MustCompile(`(?m)^\s*if .*(>|<|>=|<=) .*\{$`)
+			for si, sp := range []string{"100", "100.0", "1e2", "1E2", "1e+2", "10000e-2", "1e21", "1E-3", "-1e2", "0.5e1"} {
+				for _, kw := range []string{"maximum", "exclusiveMaximum", "minimum", "exclusiveMinimum", "multipleOf"} {
+					if kw == "multipleOf" && (strings.HasPrefix(sp, "-") || sp == "1e21") {
+						continue
+					}
+					text := `{"$id":"urn:s","type":"object","properties":{"ratio":{"type":"number","` + kw + `":` + sp + `},"count":{"type":"integer","` + kw + `":` + sp + `}},"required":["ratio"]}`
+					wd := filepath.Join(tmpc, fmt.Sprintf("%d-%s", si, kw))
+					_ = os.MkdirAll(wd, 0o755)
+					_ = os.WriteFile(filepath.Join(wd, "s.json"), []byte(text), 0o644)
+					args := []string{"-p", "x", "--schema-root-type", "urn:s=Root"}
+					fromFile := runCLI(bin, wd, "", append(args, "s.json")...)
+					fromStdin := runCLI(bin, wd, text, append(args, "-")...)
+					c.Programs += 2
+					same := fromFile.Exit == fromStdin.Exit && strings.Join(boundRe.FindAllString(fromFile.Stdout, -1), "\n") == strings.Join(boundRe.FindAllString(fromStdin.Stdout, -1), "\n")
+					c.Eval(fmt.Sprintf("stdin-vs-file|%s|%s|same=%v|exit=%d", kw, sp, same, fromFile.Exit))
+					if !same {
+						oracleFails++
+						if oracleFails <= 3 {
+							c.Fail("oracle", fmt.Sprintf("the schema with %s spelled %s gives other bound checks when read from standard input than when read from a file (exit %d / %d)", kw, sp, fromStdin.Exit, fromFile.Exit),
+								M{"kind": "cli-multi", "schema_text": text, "flags": args, "from_file": clip(fromFile.Stdout+fromFile.Stderr, 2500), "from_stdin": clip(fromStdin.Stdout+fromStdin.Stderr, 2500)}, false)
+						}
+					}
+				}
+			}
+			_ = os.RemoveAll(tmpc)
 		}
 		for _, pc := range nearDupCases(c, "c05-near-duplicates") {
 			l := pc.Labels[0]
